@@ -162,8 +162,18 @@ def run(tier):
         if not vv or not vv.by_op:
             continue
         ops = []
-        for _ in range(3 if tier == "quick" else 12):
-            u = vv.braille(rng, 12)
+        sweeps = [vv.braille(rng, 12) for _ in range(3 if tier == "quick" else 12)]
+        # cells of a rule after which back-translation INSERTS a blank (joinword, joinnum), directly followed by the
+        # cells of another rule: the inserted blank and its mark in the spacing array at every capacity
+        joins = [d for op_ in (93, 94) for (_c, d) in vv.by_op.get(op_, [])]
+        for _ in range(min(2, len(joins))):
+            d1 = [x for x in rng.choice(joins) if x & 0x8000]
+            _w, d2 = vv.sample_word(rng, 6)
+            d2 = [x for x in d2 if x & 0x8000]
+            if d1 and d2:
+                sweeps.append((d1 + d2)[:12])
+                sweeps.append((d1 + d2 + [0x8000] + d1 + d2)[:14])
+        for u in sweeps:
             if not u:
                 continue
             for cap in range(0, 2 * len(u) + 3):
